@@ -17,6 +17,7 @@ import (
 	"strconv"
 	"strings"
 	"sync"
+	"time"
 
 	specqbft "github.com/bloxapp/ssv-spec/qbft"
 	spectypes "github.com/bloxapp/ssv-spec/types"
@@ -32,13 +33,21 @@ import (
 
 // ---- plumbing shared by the three instances ----
 
-type capNet struct{ out [][]byte }
+type capNet struct {
+	out  [][]byte
+	fail bool // the publish reports an error to the caller (the message is recorded all the same)
+}
 
 func (n *capNet) Broadcast(m *spectypes.SSVMessage) error {
 	b, _ := m.Encode()
 	n.out = append(n.out, b)
+	if n.fail {
+		return errPublish
+	}
 	return nil
 }
+
+var errPublish = fmt.Errorf("c06: publish failed")
 
 type nodeTimer struct{ arms []specqbft.Round }
 
@@ -584,6 +593,7 @@ type result struct {
 	MacroStates         int
 	MacroSteps          int
 	LadderSteps         int
+	FaultSteps          int
 }
 
 func explore(r *ev.Run, w *world, start []byte, alpha []letter, maxTransitions int, tag string) result {
@@ -825,6 +835,7 @@ func explore(r *ev.Run, w *world, start []byte, alpha []letter, maxTransitions i
 	seenE := map[[32]byte]bool{w.key(init): true}
 	seenSet = seenE
 	frontier = []node{{p: init, key: w.key(init)}}
+	allE := append([]node{}, frontier...)
 	budgetE := maxTransitions
 	if v, err := strconv.Atoi(os.Getenv("VERIF_C06_E")); err == nil { // experiments only
 		budgetE = v
@@ -834,6 +845,7 @@ func explore(r *ev.Run, w *world, start []byte, alpha []letter, maxTransitions i
 		res.Transitions += used
 		res.MacroSteps += used
 		budgetE -= used
+		allE = append(allE, next...)
 		if !complete {
 			res.Complete = false
 			break
@@ -843,6 +855,49 @@ func explore(r *ev.Run, w *world, start []byte, alpha []letter, maxTransitions i
 	}
 	res.MacroStates = len(seenE)
 	seenSet = seen
+	// phase G: the network reports a publish error. In the first 250 states of the class-level
+	// search (breadth-first order) every letter of that search is applied once more with Broadcast
+	// returning an error, in all three instances, during the letter's last message (the message is
+	// recorded as sent): what the handler had done to the state before it broadcast, and what it
+	// skips after the error, must equal the reference's.
+	{
+		from := allE
+		if len(from) > 250 {
+			from = from[:250]
+		}
+		for _, n := range from {
+			if r.Expired() {
+				res.Complete = false
+				break
+			}
+			for _, l := range macros {
+				p2 := w.clone(n.p)
+				msgs := append([]*specqbft.SignedMessage{l.msg}, l.more...)
+				diff := ""
+				for i, m := range msgs {
+					if i == len(msgs)-1 {
+						p2.nNet.fail, p2.cNet.fail, p2.sNet.fail = true, true, true
+					}
+					diff = w.step(p2, m)
+					res.Transitions++
+					res.FaultSteps++
+					if diff != "" {
+						break
+					}
+				}
+				if len(p2.nNet.out)+len(p2.sNet.out) > 0 {
+					res.Hist["publish-error step that tried to broadcast"]++
+				}
+				if diff != "" {
+					path := append(append([]string{}, n.path...), l.name+" [publish error at its last message]")
+					ids := append(append([]int32{}, n.ids...), w.idsOf(l)...)
+					art := w.artefact(tag, n.start0(), path, ids)
+					art["publish_error_at_last_step"] = true
+					r.Violate("differs-from-spec under a publish error: "+short(diff)+decidedTag(diff, n.p), diff+" after "+l.name+" with Broadcast returning an error", "c06", art, diff, "identical observable behaviour")
+				}
+			}
+		}
+	}
 	// phase D: splices of recorded histories across runs, with one lost burst (splice.go)
 	budgetD := maxTransitions
 	if !r.Thorough() {
@@ -880,6 +935,7 @@ func short(d string) string {
 
 func main() {
 	r := ev.Start("C06", "model_checking")
+	r.DefaultBudget(8*time.Minute, 60*time.Minute) // seven phases x two operators; ~3 min on an idle 16-core box
 	bls.Init(bls.BLS12_381)
 	type job struct {
 		n        int
@@ -929,7 +985,7 @@ func main() {
 			exhaustive = false
 			r.CapHit(fmt.Sprintf("%s: transition cap %d / deadline", tag, j.cap))
 		}
-		bounds = append(bounds, fmt.Sprintf("%s: alphabet=%d (honest %d) states=%d transitions=%d honest-BFS-depth-completed=%d states-with-all-mutants-applied=%d deep-paths=%d/%d new-states-on-deep-paths(all mutants applied)=%d timeout-ladder-steps=%d class-level-BFS(letters=%d depth-completed=%d states=%d steps=%d) splices(states-after-timeout=%d continuations=%d automaton-states=%d cuts-complete-without-loss=%d levels=%d, <=1 lost burst) steps=%d complete=%v", tag, res.Alphabet, res.Base, res.States, res.Transitions, res.HonestDepth, res.MutantStatesCovered, res.DeepPaths, len(w.deepPaths), res.DeepStates, res.LadderSteps, res.Macros, res.MacroDepth, res.MacroStates, res.MacroSteps, res.Splice.States, res.Splice.Suffixes, res.Splice.Nodes, res.Splice.NoLossComplete, res.Splice.Depth, res.Splice.Steps, res.Complete))
+		bounds = append(bounds, fmt.Sprintf("%s: alphabet=%d (honest %d) states=%d transitions=%d honest-BFS-depth-completed=%d states-with-all-mutants-applied=%d deep-paths=%d/%d new-states-on-deep-paths(all mutants applied)=%d timeout-ladder-steps=%d publish-error-steps=%d class-level-BFS(letters=%d depth-completed=%d states=%d steps=%d) splices(states-after-timeout=%d continuations=%d automaton-states=%d cuts-complete-without-loss=%d levels=%d, <=1 lost burst) steps=%d complete=%v", tag, res.Alphabet, res.Base, res.States, res.Transitions, res.HonestDepth, res.MutantStatesCovered, res.DeepPaths, len(w.deepPaths), res.DeepStates, res.LadderSteps, res.FaultSteps, res.Macros, res.MacroDepth, res.MacroStates, res.MacroSteps, res.Splice.States, res.Splice.Suffixes, res.Splice.Nodes, res.Splice.NoLossComplete, res.Splice.Depth, res.Splice.Steps, res.Complete))
 	}
 	r.Set("traces_validated_against_impl", r.Get("transitions"))
 	r.Set("bounds", bounds)
@@ -980,6 +1036,10 @@ func replay(r *ev.Run) {
 			name = classOf(m)
 		}
 		wasDecided := p.node.State.Decided
+		if f, _ := t["publish_error_at_last_step"].(bool); f && i == len(t["steps"].([]interface{}))-1 {
+			p.nNet.fail, p.cNet.fail, p.sNet.fail = true, true, true
+			name += " [publish error]"
+		}
 		diff = w.step(p, m)
 		fmt.Printf("%3d %-60s node: round=%d decided=%v broadcasts=%d\n", i+1, name, p.node.State.Round, p.node.State.Decided, len(p.nNet.out))
 		if diff != "" {
